@@ -95,8 +95,15 @@ def run(ctx: Ctx, env):
                 kf.node_kinds(p.syms[2]) == {"List"}
         elif fix == "prefix":
             shape_ok = p.name == start and i == 0 and rest == [start] and p.syms[-1] == start
-        ctx.check(shape_ok and p.prec_override is None, "R4.production-shape", key,
-                  f"operator production for {cls} does not have the shape the precedence argument needs", gm.loc(p.func))
+        # a %prec clause is harmless exactly when it names a token of the same level and associativity as the operator's own
+        prec_terms = {}
+        for level_, (assoc_, terms_) in enumerate(g.precedence, start=1):
+            for t_ in terms_:
+                prec_terms[t_] = (assoc_, level_)
+        override_ok = p.prec_override is None or (p.prec_override in prec_terms and prec_terms.get(p.prec_override) == prec_terms.get(tok))
+        ctx.check(shape_ok and override_ok, "R4.production-shape", key,
+                  f"operator production for {cls} does not have the shape the precedence argument needs"
+                  + ("" if override_ok else f" (%prec {p.prec_override} gives it another level than its own operator token)"), gm.loc(p.func))
         op_prods[p.index] = (p, i, tok, cls)
     for cls in O.ODATA_OPERATORS:
         n = sum(1 for v in op_prods.values() if v[3] == cls)
